@@ -27,87 +27,31 @@ def lattice_unit(u) -> Stats:
             d = min(d, 1)
         if d:
             Ks = None if n == 3 else list(A.layered_knowledge(n, 1))[:24]
+            # histories may also re-reveal / overwrite a coalition with a DIFFERENT value (knowledge = which AND their values)
+            ex = set(A.explorable_ids(n))
+            lr.v2 = tuple(x + 1 if s in ex else x for s, x in enumerate(v))
             lr.dirty(d, Ks=Ks, resets=True, extra_ops=True)
         # the clean tables are a function of K: #distinct clean digests <= #K explored
         st.nontrivial += len(st.outcomes) - before
     if n == 3 and tag == "any#1000":
         st.sample({"n": n, "values": list(v), "computers": list(comps), "modes": list(modes),
-                   "ops": ["reveal", "unreveal", "reset", "set", "unset", "compute"]})
+                   "ops": ["reveal", "unreveal", "reset", "set", "unset", "reveal_alt (other value)", "set_alt (overwrite known with other value)", "compute"]})
     return st
 
 
 def env_unit(u) -> Stats:
-    """step(a) then unstep(a) from EVERY env state restores observation, reward, done, mask and table exactly."""
-    _, n, tag, v, comp, gap_name = u
+    """Environment level: BFS to closure over step(a) / unstep(a) for EVERY revealed a (any order, not only last-in-first-out);
+    in every state all observables (observation, reward, done, mask, step counter, table) must equal, bit for bit, those of a
+    fresh environment that revealed the same set in ascending order."""
+    _, n, tag, v, comp, gap_name = u[:6]
+    known_extra = u[6] if len(u) > 6 else ()
+    from ..envmodel import EnvCfg, explore_env
     st = Stats()
-    gap = gaps.registry()[gap_name]
-    try:
-        env = envs.make_env(n, envs.Script([v]), comp, gap)
-    except Exception as e:  # noqa: BLE001
-        st.violation(f"[env n={n} {comp} {gap_name}] constructing the environment raised {type(e).__name__}: {e}", n=n, values=list(v))
-        return st
-    ex = envs.explorable(env)
-    hist: list = []
-    visited = {0}
-    stack: list[tuple[int, int]] = []
-    K, idx = 0, 0          # K = bitmask over action indices
-    st.states += 1
-    while True:
-        if idx < len(ex):
-            a = idx
-            idx += 1
-            if K >> a & 1:
-                continue
-            before = envs.observe(env)
-            hist.append(("step", a))
-            try:
-                env.step(a)
-                st.transitions += 1
-                K1 = K | 1 << a
-                if K1 not in visited:
-                    visited.add(K1)
-                    st.states += 1
-                    stack.append((K, idx, before))
-                    K, idx = K1, 0
-                    continue
-                hist.append(("unstep", a))
-                env.unstep(a)
-                st.transitions += 1
-            except Exception as e:  # noqa: BLE001
-                st.violation(f"[env n={n} {comp} {gap_name} {tag}] {hist[-1]} raised {type(e).__name__}: {e}", engine="env",
-                             n=n, values=list(v), computer=comp, gap=gap_name, history=[list(h) for h in hist])
-                return st
-            after = envs.observe(env)
-        else:
-            if not stack:
-                break
-            K0, idx0, before = stack.pop()
-            a = idx0 - 1
-            hist.append(("unstep", a))
-            try:
-                env.unstep(a)
-                st.transitions += 1
-            except Exception as e:  # noqa: BLE001
-                st.violation(f"[env n={n} {comp} {gap_name} {tag}] unstep raised {type(e).__name__}: {e}", engine="env",
-                             n=n, values=list(v), computer=comp, gap=gap_name, history=[list(h) for h in hist])
-                return st
-            K, idx = K0, idx0
-            after = envs.observe(env)
-        st.evals += 1
-        if before != after:
-            fields = [f for f in before._fields if getattr(before, f) != getattr(after, f)]
-            short = [("step", i) for i in range(len(ex)) if K >> i & 1] + [("step", a), ("unstep", a)]
-            st.violation(f"[env n={n} {comp} {gap_name} {tag}] step({a}) followed by unstep({a}) did not restore {fields}: "
-                         f"reward {before.reward} -> {after.reward}, steps {before.steps} -> {after.steps}",
-                         engine="env", n=n, values=list(v), computer=comp, gap=gap_name, history=[list(h) for h in short],
-                         full_history_len=len(hist))
-            if st.nviol >= 3:
-                return st
-        else:
-            st.nontrivial += 1
-    st.traces += 1
-    if n == 3 and gap_name == "l2_norm":
-        st.sample({"env_walk": [list(h) for h in hist[:14]], "n": n, "values": list(v), "computer": comp, "gap": gap_name})
+    cfg = EnvCfg(n, [v], comp, gap_name, None, tag, 0.0, known_extra)
+    explore_env(st, cfg, "differential", with_reset=True)
+    if n == 3 and gap_name == "l2_norm" and comp == "superadditive":
+        st.sample({"env_ops": ["step(a)", "unstep(a) for any revealed a", "reset"], "n": n, "values": list(v), "computer": comp, "gap": gap_name,
+                   "model_states": st.counters.get("env_model_states")})
     return st
 
 
@@ -162,14 +106,15 @@ def units(run: Run):
                 us.append(("env", 3, f"shift#{i}", gv, comp, gap_name))
     for i, g in enumerate(reps):
         if i % (90 if quick else 18) == seed % (90 if quick else 18):
-            for comp, gap_name in (("superadditive_cached", "exploitability"), ("superadditive", "l1_norm")):
-                us.append(("env", 4, f"shift#{i}", A.shifted(g, A.ADD4), comp, gap_name))
+            triples = tuple(s for s in range(16) if A.popcount(s) == 3)
+            for comp, gap_name in (("superadditive_cached", "exploitability"), ("superadditive", "l1_norm"), ("sam_apx_1", "linf_norm")):
+                us.append(("env", 4, f"shift#{i}", A.shifted(g, A.ADD4), comp, gap_name, triples if quick else ()))
     return us
 
 
 def cost(u) -> float:
     if u[0] == "env":
-        return 2000 if u[1] == 4 else 1
+        return (2000 if not (len(u) > 6 and u[6]) else 100) if u[1] == 4 else 1
     w = {"superadditive": 3, "superadditive_cached": 1.5, "sam_apx_1": 3, "sam_apx_10": 10, "sam_apx_100": 5, "sam_apx_1000": 50}
     return (1 if u[1] == 3 else 1000) * sum(w[c] for c in u[4])
 
@@ -179,8 +124,8 @@ def run(run: Run) -> None:
     run.rule = ("all six registered computers; hidden games of ANY class (A3-ANY: all 3-player games over {-1,0,1}; A3-SA; A4-SA); per game and "
                 "computer: canonical table of a fresh object at every K, Euler walk over every reveal/un-reveal edge on one long-lived object "
                 "(table must equal the canonical one bit for bit after every compute), BFS over dirty runs of <= d operations from "
-                "{reveal, unreveal, bulk reset, set, unset} closed by compute, compute twice == once; env level: step(a);unstep(a) from every "
-                "env state restores observation, reward, done, mask, step counter and table exactly. non-trivial = distinct clean tables / undo pairs")
+                "{reveal, unreveal, bulk reset, set, unset} closed by compute, compute twice == once; env level: BFS to closure over step / unstep of ANY revealed action / reset; "
+                "every observable equals that of a fresh env with the same revealed set. non-trivial = distinct clean tables / undo pairs")
     run.bounds = {"n": [3, 4], "dirty_run": {"quick": "1 (2 on 1/8 of the games)", "thorough": "2 (3 on 1/16)"}[run.tier],
                   "games": "1/3 of A3-ANY and A3-SA per seed (quick) / all (thorough)", "units": len(us)}
     run.assumptions = ["sam_apx_1000 is explored at n=3 on games over {0,1,2} without dirty runs (48 ms per compute)",
@@ -191,18 +136,6 @@ def run(run: Run) -> None:
 
 def replay(doc: dict):
     if doc.get("engine") == "env":
-        n, v, comp = doc["n"], doc["values"], doc["computer"]
-        env = envs.make_env(n, envs.Script([v]), comp, gaps.registry()[doc["gap"]])
-        hist = [tuple(h) for h in doc["history"]]
-        try:
-            for op, a in hist[:-2]:
-                getattr(env, op)(a)
-            before = envs.observe(env)
-            for op, a in hist[-2:]:
-                getattr(env, op)(a)
-            after = envs.observe(env)
-        except Exception as e:  # noqa: BLE001
-            return True, f"env replay {hist}: raised {type(e).__name__}: {e}"
-        fields = [f for f in before._fields if getattr(before, f) != getattr(after, f)]
-        return bool(fields), f"env replay n={n} computer={comp} gap={doc['gap']} values={v} history={hist}: fields not restored: {fields}"
+        from ..envmodel import replay_env
+        return replay_env(doc)
     return replay_lattice(doc, lambda d: Checker())
